@@ -164,7 +164,12 @@ def FileSt.init (P : Profile) (f : FileSt) : Except ErrClass FileSt :=
 
 /-- `File.add`; `none` = panic (nil `msgAdder`) -/
 def FileSt.add (P : Profile) (f : FileSt) (m : Msg) (g : Globals) : Option (FileSt × Globals) :=
-  if m.num = mnFileId then some ({ f with fileId := m }, g)
+  if m.num = mnFileId then
+    -- once the container is attached a later file_id cannot change the file type
+    let m' := match f.cidx, m.vals, f.fileId.vals with
+      | some _, _ :: rest, t :: _ => { m with vals := t :: rest }
+      | _, _, _ => m
+    some ({ f with fileId := m' }, g)
   else if m.num = mnFileCreator then some ({ f with creator := some m }, g)
   else if m.num = mnTimestampCorrelation then some ({ f with tscorr := some m }, g)
   else if m.num = mnFieldDescription then some ({ f with fieldDescs := f.fieldDescs ++ [m] }, g)
